@@ -91,6 +91,7 @@ func (s *tcpServer) down() {
 type dialRecorder struct {
 	first, redials int32
 	rejectRedial   int32 // when set, every redial attempt is refused by the hook (e.g. a refused re-authentication)
+	refuseNext     int32 // this many of the next redial attempts are refused, then the hook accepts again
 }
 
 func (d *dialRecorder) Name() string { return "c13dial" }
@@ -98,6 +99,9 @@ func (d *dialRecorder) PostDial(s erpc.PreSession, isRedial bool) *erpc.Status {
 	if isRedial {
 		if atomic.LoadInt32(&d.rejectRedial) != 0 {
 			return erpc.NewStatus(erpc.CodeUnauthorized, "re-authentication refused", "c13")
+		}
+		if atomic.AddInt32(&d.refuseNext, -1) >= 0 {
+			return erpc.NewStatus(erpc.CodeUnauthorized, "re-authentication refused for now", "c13")
 		}
 		atomic.AddInt32(&d.redials, 1)
 	} else {
@@ -145,7 +149,7 @@ func genC13(t *rapid.T) c13Case {
 	c := c13Case{Budget: rapid.SampledFrom([]int32{1, 3, -1}).Draw(t, "budget"), SetID: rapid.Bool().Draw(t, "setid"), Callers: rapid.IntRange(1, 4).Draw(t, "callers"), Secure: rapid.IntRange(0, 2).Draw(t, "secure") == 0}
 	n := rapid.IntRange(1, 5).Draw(t, "nactions")
 	for i := 0; i < n; i++ {
-		a := rapid.SampledFrom([]string{"kill-idle", "kill-idle", "kill-during-call", "calls", "outage-short", "outage-exhaust", "hook-rejects-redials", "traffic-during-outage", "traffic-during-outage"}).Draw(t, "action")
+		a := rapid.SampledFrom([]string{"kill-idle", "kill-idle", "kill-during-call", "calls", "outage-short", "outage-exhaust", "hook-rejects-redials", "traffic-during-outage", "traffic-during-outage", "reverse-call-in-flight", "reverse-call-in-flight", "refused-then-accepted", "refused-then-accepted"}).Draw(t, "action")
 		c.Actions = append(c.Actions, a)
 		if (a == "outage-exhaust" || a == "hook-rejects-redials") && c.Budget > 0 {
 			break // the session ends there
@@ -187,9 +191,26 @@ func runC13(c c13Case) []string {
 	rec := &dialRecorder{}
 	once := &writeOnce{n: map[string]int{}}
 	cli := w.Peer(erpc.PeerConfig{RedialTimes: c.Budget, RedialInterval: c13Interval, DialTimeout: 2 * time.Second}, append(cliPlugins, rec, once)...)
+	registerLib(cli) // the client serves calls issued by the server over the client's session
 	sess, stat := cli.Dial(ts.addr)
 	if !stat.OK() {
 		return []string{"initial dial failed: " + stat.String()}
+	}
+	// the serving end of the client's current connection
+	srvSession := func(not erpc.Session) erpc.Session {
+		var found erpc.Session
+		vt.WaitUntilFor(3*time.Second, func() bool {
+			found = nil
+			srv.RangeSession(func(s erpc.Session) bool {
+				if s.Health() && interface{}(s) != interface{}(not) {
+					found = s
+					return false
+				}
+				return true
+			})
+			return found != nil
+		})
+		return found
 	}
 	var fails []string
 	failf := func(format string, a ...interface{}) { fails = append(fails, fmt.Sprintf(format, a...)) }
@@ -358,6 +379,95 @@ func runC13(c c13Case) []string {
 				checkIdentity("after a loss during a call")
 				okCall("after a loss during a call")
 			}
+		case "refused-then-accepted":
+			// the dial hook refuses the first attempts of this round and then accepts, staying
+			// within the budget: the budget is per loss, so this can be repeated any number of times
+			k := int32(2)
+			if c.Budget > 0 && c.Budget-1 < k {
+				k = c.Budget - 1
+			}
+			atomic.StoreInt32(&rec.refuseNext, k)
+			ts.kill()
+			if stabilised(before, fmt.Sprintf("action %d: connection killed, the dial hook refuses %d redial attempt(s) and then accepts (budget %d)", ai, k, c.Budget)) {
+				checkIdentity("after a round with refused redial attempts")
+				okCall("after a round with refused redial attempts")
+			}
+			atomic.StoreInt32(&rec.refuseNext, 0)
+		case "reverse-call-in-flight":
+			// the server has called the client and the client's handler is still running when the
+			// connection is lost; whatever that handler returns later belongs to the old
+			// connection: a call the server issues over the re-established connection gets its
+			// own reply even when it carries the same sequence number
+			old := srvSession(nil)
+			if old == nil {
+				failf("harness: no serving session found")
+				break
+			}
+			rid := fmt.Sprintf("rev%d", ai)
+			entered, release := lib.Gate(rid)
+			oldRes := new(LibRes)
+			oldCmd := old.AsyncCall(route, &LibArg{Rid: rid, Act: "slow", Val: "old-" + rid}, oldRes, make(chan erpc.CallCmd, 1), secureSetting...)
+			if !vt.WaitClosed(entered) {
+				release()
+				failf("%s", vt.Hang("entry of the client-side handler of a call issued by the server"))
+				break
+			}
+			oldSeq := oldCmd.Output().Seq()
+			ts.kill()
+			// a framework that re-establishes the session while the old handler still runs gets the
+			// new call in flight before the old handler returns; one that waits for the handler first
+			// (the unchanged code) gets it afterwards
+			early := vt.WaitUntilFor(150*time.Millisecond, func() bool { return atomic.LoadInt32(&rec.redials) > before && sess.Health() })
+			if !early {
+				release()
+				if !stabilised(before, fmt.Sprintf("action %d: connection killed while a client-side handler was running", ai)) {
+					break
+				}
+			}
+			cur := srvSession(old)
+			if cur == nil {
+				release()
+				failf("the serving peer has no healthy session after the client re-established its connection")
+				break
+			}
+			// bring the new serving session to the sequence number of the old call
+			for i := int32(1); i < oldSeq && len(fails) == 0; i++ {
+				fr := new(LibRes)
+				if fc := cur.Call(route, &LibArg{Rid: fmt.Sprintf("fill%d-%d", ai, i), Act: "ret", Val: "fill"}, fr, secureSetting...); !fc.StatusOK() || fr.Val != "fill" {
+					failf("a call issued by the server over the re-established connection failed: %v %+v", fc.Status(), *fr)
+				}
+			}
+			nrid := fmt.Sprintf("revnew%d", ai)
+			nentered, nrelease := lib.Gate(nrid)
+			newRes := new(LibRes)
+			newCmd := cur.AsyncCall(route, &LibArg{Rid: nrid, Act: "slow", Val: "new-" + nrid}, newRes, make(chan erpc.CallCmd, 1), secureSetting...)
+			if !vt.WaitClosed(nentered) {
+				release()
+				nrelease()
+				failf("%s", vt.Hang("entry of the client-side handler of the call issued over the re-established connection"))
+				break
+			}
+			release() // the old handler returns now (if it has not already)
+			time.Sleep(2 * time.Millisecond)
+			nrelease()
+			if !vt.WaitClosed(newCmd.Done()) {
+				failf("%s", vt.Hang("completion of the call issued by the server over the re-established connection"))
+				break
+			}
+			if !newCmd.StatusOK() || newRes.Val != "new-"+nrid || newRes.Rid != nrid {
+				failf("the call issued by the server over the re-established connection (seq %d, same as the call in flight when the old connection was lost: %d) completed with status %v and result %+v, want its own reply Val=%q", newCmd.Output().Seq(), oldSeq, newCmd.Status(), *newRes, "new-"+nrid)
+			}
+			if !vt.WaitClosed(oldCmd.Done()) {
+				failf("%s", vt.Hang("completion of the server's call that was in flight when the connection was lost"))
+				break
+			}
+			if oldCmd.StatusOK() && oldRes.Val != "old-"+rid {
+				failf("the server's call in flight at the loss completed OK with a foreign result %+v", *oldRes)
+			}
+			if !early {
+				checkIdentity("after a loss during a client-side handler")
+			}
+			okCall("after a loss during a client-side handler")
 		case "outage-short":
 			// unreachable for less than the budget allows (or budget unlimited), then back
 			ts.down()
@@ -528,7 +638,7 @@ func okCallLocked(sess erpc.Session, route string, fails *[]string, n *int) {
 	}
 }
 
-const ruleC13 = "a client session created by Dial over loopback TCP with redial budget 1 / 3 / unlimited (interval 3 ms), optionally with a user-assigned id and optionally with the secure plugin on both peers (every message marked secure), against a harness-owned listener that can kill all connections and refuse new ones; 1-5 generated fault actions: connection killed while idle, killed while a call awaits its (gated) reply, calls and pushes issued while the server is away (unlimited budget), short outage, outage that exhausts the budget (or a long outage with unlimited budget), a dial hook refusing every redial attempt while the server is reachable, bursts of concurrent calls; oracle: the pre-write hooks of the dialling peer fire once per message even when it is re-sent after a redial; calls in flight at the loss complete with a connection-class status or their genuine reply (never hang); after the session re-established (redial hook ran again, Health) calls succeed on the same Session value, the user-assigned id is kept and indexed; after exhaustion the close notification fires, the index forgets the session, the pending call and a later call fail with a connection error; unlimited budget survives a long outage; non-trivial = a loss during a call, >=2 losses or exhaustion; distinct by case"
+const ruleC13 = "a client session created by Dial over loopback TCP with redial budget 1 / 3 / unlimited (interval 3 ms), optionally with a user-assigned id and optionally with the secure plugin on both peers (every message marked secure), against a harness-owned listener that can kill all connections and refuse new ones; 1-5 generated fault actions: connection killed while idle, killed while a call awaits its (gated) reply, calls and pushes issued while the server is away (unlimited budget), short outage, outage that exhausts the budget (or a long outage with unlimited budget), a dial hook refusing every redial attempt while the server is reachable, a dial hook refusing budget-1 attempts of a round and then accepting (repeatable: the budget is per loss), bursts of concurrent calls, a call issued by the server whose client-side handler is still running at the loss followed by a server call with the same sequence number over the re-established connection; oracle: the pre-write hooks of the dialling peer fire once per message even when it is re-sent after a redial; calls in flight at the loss complete with a connection-class status or their genuine reply (never hang); after the session re-established (redial hook ran again, Health) calls succeed on the same Session value, the user-assigned id is kept and indexed; after exhaustion the close notification fires, the index forgets the session, the pending call and a later call fail with a connection error; unlimited budget survives a long outage; non-trivial = a loss during a call, >=2 losses or exhaustion; distinct by case"
 
 func TestC13Redial(t *testing.T) {
 	rec := vt.NewRec(t, "C13", "redial", ruleC13)
